@@ -50,3 +50,10 @@ package api
 //@ ensures result != nil && (result.Completion != nil) != (result.Error != nil)
 //@ ensures calls("kernel_enqueue") == 1 && result.Completion != nil ==> kernel_reply(callarg("kernel_enqueue", 0, 1).Submission, result.Completion)
 //@ ensures calls("kernel_enqueue") == 1 && result.Error != nil ==> kernel_fail(callarg("kernel_enqueue", 0, 1).Submission, errcode(result.Error))
+
+//@ func (API).Signal
+//@ iface
+//@ ensures result != nil
+
+//@ func (API).Shutdown
+//@ iface
